@@ -111,9 +111,21 @@ def check(ctx):
     ctx.count("rolling_classes", n_r)
     ctx.floor("rolling_classes", 12)
     T.argpos(ctx, lambda p: p in (ROL, CUM), "c46", floor=5)
+    from .C13 import aux_key_names
+
+    aux_key_names(ctx)
+    # ---------------- the row carried between partitions: per column the last valid value
+    tl = ctx.model.klass("dask/dataframe/dask_expr/_cumulative.py", "TakeLast").own_methods.get("operation")
+    if tl is None:
+        raise AnchorMissing("TakeLast.operation")
+    ff = find("a = a.ffill()", tl)
+    ok = len(ff) == 1 and any(unparse(e) == "skipna" and pol for e, pol in cfg_of(tl).facts(ff[0][0])) and any(unparse(r.value) == "a.tail(n=1).squeeze()" for r in returns(tl))
+    ctx.ob("ALG.scan-carry.last-valid", tl, "skipna: a = a.ffill() then the last row -- per column the last non-missing value", ok, "" if ok else "the carried row is not forward-filled per column: a column that is NaN in the last row loses its running total in every later partition")
 
 
 VARIANTS = [
+    ("dask/dataframe/dask_expr/_cumulative.py", "            a = a.ffill()\n", '            a = a.dropna(how="all")\n', "ALG.scan-carry.last-valid"),
+    ("dask/dataframe/dask_expr/_expr.py", '        name_prepend = f"overlap-prepend-{self._name}"', '        name_prepend = f"overlap-prepend-{self.frame._name}"', "N1.aux-key"),
     (CUM, "class CumProd(CumulativeAggregations):\n    chunk_operation = M.cumprod\n    aggregate_operation = staticmethod(methods.cumprod_aggregate)\n    neutral_element = 1", "class CumProd(CumulativeAggregations):\n    chunk_operation = M.cumprod\n    aggregate_operation = staticmethod(methods.cumprod_aggregate)\n    neutral_element = 0", "ALG.scan-monoid"),
     (CUM, "    chunk_operation = M.cummax\n    aggregate_operation = staticmethod(methods.cummax_aggregate)", "    chunk_operation = M.cummax\n    aggregate_operation = staticmethod(methods.cummin_aggregate)", "ALG.scan-monoid"),
     (METH, "        return x.where((x > y) | x.isnull(), y, axis=x.ndim - 1)", "        return x.where((x < y) | x.isnull(), y, axis=x.ndim - 1)", "ALG.scan-monoid.helper"),
